@@ -159,6 +159,10 @@ func checkC04(c *Ctx) {
 	for i := 0; i < c.Pick(2, 8); i++ {
 		runC04Nonces(c, c.Seed*163+uint64(i))
 	}
+	// (i) the prompt's password-expiration timer firing while a command runs
+	for i := 0; i < c.Pick(1, 4); i++ {
+		runC04Expiry(c, c.Seed*167+uint64(i))
+	}
 	// (g) user names re-bound to other machines between two rounds
 	Parallel(c.Pick(2, 12), 4, func(i int) { runC04Swapped(c, c.Seed*157+uint64(i)) })
 }
